@@ -38,7 +38,11 @@ NT_RULE = ('one case = one fit: class x constructor x source (StatMech gas/adsor
            'unit x T_ref; drawn per case index from a seeded PRNG after a list of directed cases. '
            'non-trivial = non-degenerate source with T_ref != window midpoint, or a zero-Cp '
            '(degenerate path) case; distinct = distinct canonical JSON of the spec')
-REQUIRED_ORACLES = ['A1', 'A2', 'A3', 'A4', 'A5']
+REQUIRED_ORACLES = ['A1', 'A2', 'A3', 'A4', 'A5', 'A6', 'A7']
+EVAL_TYPES = ['int', 'np.int64', 'float_ndarray', 'int_ndarray', 'int_list', 'float_list', 'int_tuple',
+              'range']
+HIST_DATA = ['repeat', 'new_ref', 'T_ref_sweep']
+HIST_MODEL = ['repeat', 'other_window']
 CLASSES3 = ['Nasa', 'Nasa9', 'Shomate']
 SRC_KINDS = ['statmech_gas', 'statmech_ads', 'const', 'zero', 'poly']
 # every unit string pMuTT's gas constant accepts (documented table of pmutt.constants.R)
@@ -71,7 +75,18 @@ REQUIRED_CLASSES = (['%s.%s' % (c, k) for c in CLASSES3 for k in ('from_data', '
                     + ['Nasa9.from_data:nseg2:tref@%s' % a for a in ('T_low', 'T_high', 'break0')]
                     + ['Nasa9.from_data:nseg3:tref@%s' % a for a in ('T_low', 'T_high', 'break0', 'break1')]
                     + ['Nasa9.from_model:nseg%d:tref@T_low' % n for n in (1, 2, 3)]
-                    + ['Shomate.from_data:nseg1:tref@%s' % a for a in ('T_low', 'T_high')])
+                    + ['Shomate.from_data:nseg1:tref@%s' % a for a in ('T_low', 'T_high')]
+                    # typing of the temperatures: getters evaluated on int scalars / int and float
+                    # containers; whole-kelvin integer grids handed to from_data (and the getters
+                    # evaluated on that very array); integer T_low / T_high handed to from_model
+                    + ['%s:eval:%s' % (c, t) for c in CLASSES3 for t in EVAL_TYPES]
+                    + ['%s:fit_grid:int' % c for c in CLASSES3]
+                    + ['%s:fit_grid:float' % c for c in CLASSES3]
+                    + ['%s.from_model:int_bounds' % c for c in CLASSES3]
+                    + ['%s.from_data:T_ref:int' % c for c in CLASSES3]
+                    # histories: the same data / model fitted again in the same process
+                    + ['%s.from_data:history:%s' % (c, h) for c in CLASSES3 for h in HIST_DATA]
+                    + ['%s.from_model:history:%s' % (c, h) for c in CLASSES3 for h in HIST_MODEL])
 REQUIRED_BRANCHES = ['Nasa._fit_HoRT:T_ref<=T_mid', 'Nasa._fit_HoRT:T_ref>T_mid',
                      'Nasa._fit_SoR:T_ref<=T_mid', 'Nasa._fit_SoR:T_ref>T_mid',
                      'Nasa._fit_CpoR:zeroCp', 'Nasa._fit_CpoR:fit',
@@ -166,6 +181,8 @@ def grid(spec):
     g = spec.get('grid') or {'kind': 'lin'}
     if g['kind'] == 'geom':
         T = np.geomspace(lo, hi, n)
+    elif g['kind'] == 'int':                  # whole-kelvin table, integer dtype (lo, hi whole)
+        T = np.floor(np.linspace(lo, hi, n) + 0.5).astype(np.int64)
     else:
         T = np.linspace(lo, hi, n)
         if g['kind'] == 'jitter':
@@ -340,15 +357,27 @@ def _between(rng, Ts, i, on_grid=None):
 
 def make_case(rng, cls=None, ctor=None, src=None, window=None, n_T=None, T_mid_mode=None,
               nseg=None, fit_T_mid=None, tref_mode=None, units=None, shuffle=None, gridkind=None,
-              tier='quick', order=None, ref_mode=None, T_mid_at_mid=False):
+              tier='quick', order=None, ref_mode=None, T_mid_at_mid=False, tgrid=None, history=None):
     """order: None (draw) | 'keep' | 'desc';  ref_mode: None (draw) | 'source' | one of REF_MODES;
-    T_mid_at_mid: scalar NASA-7 T_mid exactly at the window midpoint (= T_ref of from_model)"""
+    T_mid_at_mid: scalar NASA-7 T_mid exactly at the window midpoint (= T_ref of from_model);
+    tgrid: None (draw) | 'float' | 'int' (whole-kelvin integer-typed grid / integer bounds);
+    history: None (draw) | 'none' | list of kinds from HIST_DATA / HIST_MODEL"""
     import numpy as np
     cls = cls or rng.choices(CLASSES3, [4, 5, 3])[0]
     ctor = ctor or rng.choice(['from_data', 'from_model'])
     src = src or rng.choices(SRC_KINDS, [30, 25, 10, 8, 27])[0]
     lo, hi = _window(rng, window)
+    if tgrid is None:                         # (directed cases pass tgrid: their draws are unchanged)
+        tgrid = 'int' if rng.random() < 0.15 else 'float'
+    if tgrid == 'int':
+        w = max(100.0, float(math.floor(hi - lo)))
+        lo = float(math.ceil(lo))
+        hi = lo + w
+        if hi > 3000.0:
+            lo, hi = 3000.0 - w, 3000.0
     spec = {'cls': cls, 'ctor': ctor, 'T_low': lo, 'T_high': hi}
+    if tgrid == 'int' and ctor == 'from_model':
+        spec['int_bounds'] = True
     # ---- T_mid mode and interval count
     if cls == 'Nasa':
         mode = T_mid_mode or rng.choices(['None', 'scalar', 'list'], [4, 4, 3])[0]
@@ -377,11 +406,15 @@ def make_case(rng, cls=None, ctor=None, src=None, window=None, n_T=None, T_mid_m
         elif tier == 'quick':
             n_T = n_T if n_T in (15, 200) and rng.random() < 0.3 else min(n_T, 80)
     n_T = max(n_T, nmin)
+    if tgrid == 'int' and ctor == 'from_data':
+        n_T = max(nmin, min(n_T, int(hi - lo) // 2 + 1))     # distinct whole numbers
     spec['n_T'] = n_T
     # ---- grid (from_data only; from_model builds its own linspace)
     shuffled = False
     if ctor == 'from_data':
         gk = gridkind or rng.choices(['lin', 'geom', 'jitter'], [5, 2, 3])[0]
+        if tgrid == 'int':
+            gk = 'int'
         g = {'kind': gk, 'seed': rng.randint(0, 10 ** 6)}
         can_shuffle = not (cls == 'Nasa' and mode == 'None') and src != 'zero'
         if shuffle is None:
@@ -475,6 +508,8 @@ def make_case(rng, cls=None, ctor=None, src=None, window=None, n_T=None, T_mid_m
         else:
             T_ref = round(rng.uniform(lo, hi), 3)
         spec['T_ref'] = min(max(float(T_ref), lo), hi)
+        if tgrid == 'int' and spec['T_ref'] == math.floor(spec['T_ref']):
+            spec['T_ref_int'] = True           # handed over as a Python int
     spec['source'] = _gen_source(rng, src, cls, lo, hi)
     if ctor == 'from_data':
         # strictly descending temperature array
@@ -487,7 +522,46 @@ def make_case(rng, cls=None, ctor=None, src=None, window=None, n_T=None, T_mid_m
             ref_mode = rng.choice(REF_MODES) if rng.random() < 0.15 else 'source'
         if ref_mode != 'source':
             spec['ref'] = make_ref(rng, ref_mode)
+    # the same data / the same model fitted again in the same process
+    if history is None:
+        history = 'none'
+        if rng.random() < 0.12 and not (cls == 'Nasa9' and spec.get('fit_T_mid')):
+            pool = HIST_DATA if ctor == 'from_data' else HIST_MODEL
+            history = [rng.choice(pool) for _ in range(rng.choice([1, 1, 2]))]
+    if history != 'none':
+        steps = [make_step(rng, spec, k) for k in history]
+        steps = [st for st in steps if st is not None]
+        if steps:
+            spec['history'] = steps
     return spec
+
+
+def make_step(rng, spec, kind):
+    """one further fit of a history (see run_case)"""
+    lo, hi = spec['T_low'], spec['T_high']
+    if kind == 'repeat':
+        return {'kind': 'repeat'}
+    if kind == 'new_ref':                     # same T_ref, another reference state
+        return {'kind': kind, 'ref': {'mode': 'given', 'HoRT': round(rng.uniform(-50, 50), 4),
+                                      'SoR': round(rng.uniform(0, 60), 4)}}
+    if kind == 'T_ref_sweep':                 # same data and references taken at another T_ref
+        while True:
+            t = rng.choice([lo, hi, round(rng.uniform(lo, hi), 3), round(rng.uniform(lo, hi), 3)])
+            if t != spec['T_ref']:
+                return {'kind': kind, 'T_ref': float(t)}
+    # other_window: the same model fitted on a window inside the first one (T_ref moves)
+    w = hi - lo
+    if w < 200.0:
+        return {'kind': 'repeat'}
+    lo2, hi2 = _r2(lo + 0.2 * w), _r2(hi - 0.1 * w)
+    st = {'kind': 'other_window', 'T_low': lo2, 'T_high': hi2}
+    if spec['cls'] == 'Nasa':
+        st['T_mid'] = None
+    elif spec['cls'] == 'Nasa9':
+        n = spec['n_interval']
+        st['T_mid'] = [_r2(lo2 + (hi2 - lo2) * k / n) for k in range(1, n)]
+        st['fit_T_mid'] = False
+    return st
 
 
 REF_MODES = ['H=0', 'S=0', 'both=0', 'negzero', 'int0', 'int']
@@ -520,6 +594,8 @@ def directed(tier):
         k[0] += 1
         kw.setdefault('order', 'keep')
         kw.setdefault('ref_mode', 'source')
+        kw.setdefault('tgrid', 'float')
+        kw.setdefault('history', 'none')
         D.append(make_case(random.Random('C03-directed-%d' % k[0]), tier=tier, **kw))
         return D[-1]
 
@@ -654,6 +730,35 @@ def directed(tier):
     mk(cls='Nasa', ctor='from_data', src='zero', T_mid_mode='scalar', order='desc', shuffle=False)
     mk(cls='Nasa9', ctor='from_data', src='zero', T_mid_mode='list', nseg=2, order='desc', shuffle=False)
     mk(cls='Shomate', ctor='from_data', src='zero', order='desc', shuffle=False)
+    # --- whole-kelvin integer grids / integer bounds / integer T_ref, every class
+    for cls in CLASSES3:
+        kw = dict(T_mid_mode='list', fit_T_mid=False) if cls == 'Nasa9' else {}
+        for src in ('statmech_gas', 'poly'):
+            mk(cls=cls, ctor='from_data', src=src, tgrid='int', tref_mode='grid', window='full', **kw)
+            mk(cls=cls, ctor='from_data', src=src, tgrid='int', tref_mode='low', **kw)
+            mk(cls=cls, ctor='from_model', src=src, tgrid='int', **kw)
+        mk(cls=cls, ctor='from_data', src='statmech_ads', tgrid='int', order='desc', shuffle=False,
+           tref_mode='high', **kw)
+        mk(cls=cls, ctor='from_data', src='const', tgrid='int', shuffle=True, tref_mode='grid',
+           **(dict(kw, T_mid_mode='list') if cls != 'Shomate' else {}))
+    mk(cls='Nasa', ctor='from_data', src='statmech_gas', tgrid='int', T_mid_mode='None', tref_mode='grid')
+    mk(cls='Nasa', ctor='from_data', src='statmech_ads', tgrid='int', T_mid_mode='scalar', tref_mode='break0')
+    # --- histories: same data / same model fitted again with the same or another reference
+    for cls in CLASSES3:
+        kw = dict(T_mid_mode='list', fit_T_mid=False) if cls == 'Nasa9' else {}
+        for src in ('statmech_gas', 'poly'):
+            for h in (['repeat'], ['new_ref'], ['T_ref_sweep'], ['T_ref_sweep', 'new_ref', 'repeat']):
+                mk(cls=cls, ctor='from_data', src=src, history=h, **kw)
+            for h in (['repeat'], ['other_window'], ['other_window', 'repeat']):
+                mk(cls=cls, ctor='from_model', src=src, history=h, window='any' if h == ['repeat'] else 'full',
+                   **kw)
+    for tm in ('None', 'scalar', 'list'):
+        mk(cls='Nasa', ctor='from_data', src='statmech_ads', T_mid_mode=tm, history=['T_ref_sweep', 'new_ref'],
+           tref_mode='first' if tm == 'scalar' else 'any')
+        mk(cls='Nasa', ctor='from_model', src='statmech_gas', T_mid_mode=tm, history=['repeat'])
+    mk(cls='Nasa', ctor='from_data', src='zero', T_mid_mode='scalar', history=['new_ref'])
+    mk(cls='Nasa', ctor='from_data', src='const', T_mid_mode='None', history=['new_ref', 'T_ref_sweep'],
+       tgrid='int')
     return D
 
 
@@ -766,8 +871,8 @@ def _construct(spec, src, T, Cp, ref):
     if isinstance(tm, list):
         tm = list(tm)
     if ctor == 'from_data':
-        kw = dict(name='fit', T=T, CpoR=Cp, T_ref=ref[0], HoRT_ref=ref[1], SoR_ref=ref[2],
-                  elements={'H': 2})
+        kw = dict(name='fit', T=T, CpoR=Cp, T_ref=int(ref[0]) if spec.get('T_ref_int') else ref[0],
+                  HoRT_ref=ref[1], SoR_ref=ref[2], elements={'H': 2})
         if cls == 'Nasa':
             return lambda: Nasa.from_data(T_mid=tm, **kw)
         if cls == 'Nasa9':
@@ -775,6 +880,8 @@ def _construct(spec, src, T, Cp, ref):
         return lambda: Shomate.from_data(units=spec['units'], **kw)
     model = src.model()
     kw = dict(name='fit', model=model, T_low=spec['T_low'], T_high=spec['T_high'], n_T=spec['n_T'])
+    if spec.get('int_bounds'):
+        kw.update(T_low=int(spec['T_low']), T_high=int(spec['T_high']))
     if cls == 'Nasa':
         return lambda: Nasa.from_model(T_mid=tm, **kw)
     if cls == 'Nasa9':
@@ -784,11 +891,80 @@ def _construct(spec, src, T, Cp, ref):
 
 
 def run_case(spec, ctx):
+    """first fit + (optionally) a history of further fits of the same data / model in the same
+    process; every fit goes through A1-A6, A7 judges the history"""
+    import numpy as np
+    first = {k: v for k, v in spec.items() if k != 'history'}
+    cls, ctor = spec['cls'], spec['ctor']
+    src = Source(first)
+    a = _one_fit(first, ctx, src)
+    steps = spec.get('history') or []
+    if not steps:
+        return
+    snap = _snapshot(cls, a) if a is not None else None
+    for st in steps:
+        kind = st['kind']
+        ctx.cls('%s.%s:history:%s' % (cls, ctor, kind))
+        s2 = dict(first)
+        for k in ('T_ref', 'ref', 'T_low', 'T_high', 'T_mid', 'fit_T_mid'):
+            if k in st:
+                s2[k] = st[k]
+        if 'T_ref' in st:
+            s2.pop('T_ref_int', None)
+        if 'T_low' in st:
+            s2.pop('int_bounds', None)
+        b = _one_fit(s2, ctx, src, hist=kind)
+        if a is None or b is None:
+            continue
+        m = {'class': cls, 'ctor': ctor, 'hist': kind}
+        # no coefficient array may be shared between two fitted objects ...
+        shared = any(np.shares_memory(x, y) for x in _arrays(cls, a) for y in _arrays(cls, b))
+        ctx.check('A7', not shared, dict(m, what='coefficient array shared between fits'))
+        # ... so editing the later object in place leaves the first one alone
+        saved = [np.array(y, copy=True) for y in _arrays(cls, b)]
+        try:
+            for y in _arrays(cls, b):
+                y += 1.0
+            ctx.check('A7', _snapshot(cls, a) == snap, dict(m, what='first fit changed by editing a later fit'))
+        finally:
+            for y, sv in zip(_arrays(cls, b), saved):
+                y[...] = sv
+    if a is not None:
+        # the first object is exactly what it was before the later fits ran
+        ctx.check('A7', _snapshot(cls, a) == snap,
+                  {'class': cls, 'ctor': ctor, 'hist': '+'.join(st['kind'] for st in steps),
+                   'what': 'first fit changed by later fits'})
+
+
+def _arrays(cls, obj):
+    if cls == 'Nasa':
+        return [obj.a_low, obj.a_high]
+    if cls == 'Nasa9':
+        return [n.a for n in obj.nasas]
+    return [obj.a]
+
+
+def _snapshot(cls, obj):
+    """everything observable about a fitted object, as plain numbers"""
+    edges, coefs = seg_coeffs(cls, obj)
+    vals = []
+    for f in (0.0, 0.31, 0.5, 0.77, 1.0):
+        Tq = edges[0] + f * (edges[-1] - edges[0])
+        for name in ('CpoR', 'HoRT', 'SoR'):
+            try:
+                vals.append(_f(getattr(obj, 'get_' + name)(T=Tq)))
+            except Exception as e:
+                vals.append(type(e).__name__)
+    return (edges, coefs, vals)
+
+
+def _one_fit(spec, ctx, src, hist=None):
+    """one call of the real constructor judged by A1-A6; returns the fitted object (None when
+    it could not be built or its window is malformed)"""
     import numpy as np
     _reset_case()
     cls, ctor = spec['cls'], spec['ctor']
     lo, hi, n_T = spec['T_low'], spec['T_high'], spec['n_T']
-    src = Source(spec)
     kind = src.kind
     # ---------------- input classes
     ctx.cls('%s.%s' % (cls, ctor), '%s:src:%s' % (cls, kind))
@@ -834,6 +1010,15 @@ def run_case(spec, ctx):
     else:
         T = Cp = ref = None
     mech0 = {'class': cls, 'ctor': ctor, 'src': kind, 'T_mid': mode}
+    if hist is not None:
+        mech0['hist'] = hist                  # a later fit of a history
+    if ctor == 'from_data':
+        isint = np.issubdtype(np.asarray(T).dtype, np.integer)
+        ctx.cls('%s:fit_grid:%s' % (cls, 'int' if isint else 'float'))
+        if spec.get('T_ref_int'):
+            ctx.cls('%s.from_data:T_ref:int' % cls)
+    elif spec.get('int_bounds'):
+        ctx.cls('%s.from_model:int_bounds' % cls)
     if spec.get('ref'):
         mech0['ref'] = spec['ref'].get('mode', 'given')
     if cls == 'Shomate':
@@ -853,7 +1038,7 @@ def run_case(spec, ctx):
         ctx.fail('A1', m, message=str(e)[:300], where=core._tb_where(e))
         if _ST['zero'] or kind == 'zero':
             ctx.nontrivial()
-        return
+        return None
     # ---------------- what was fitted (grid, reference) -- for from_model from the probe
     snap = _ST['from_data']
     if ctor == 'from_model':
@@ -942,7 +1127,7 @@ def run_case(spec, ctx):
         ctx.extra['nasa_T_mid_not_a_candidate'] = ctx.extra.get('nasa_T_mid_not_a_candidate', 0) + \
             (0 if any(abs(breaks[0] - c) < 1e-9 for c in cands) else 1)
     if not span_ok or not all(edges[i] < edges[i + 1] for i in range(len(edges) - 1)):
-        return                      # the remaining oracles presuppose a well-formed window
+        return None                 # the remaining oracles presuppose a well-formed window
     # ---------------- A1 anchor
     h = g('HoRT', T_ref, 'A1', mech)
     s = g('SoR', T_ref, 'A1', mech)
@@ -994,6 +1179,86 @@ def run_case(spec, ctx):
     # ---------------- A5 smooth sources
     if kind in ('statmech_gas', 'statmech_ads'):
         _a5(ctx, spec, obj, src, cls, mech, T, Cp, edges, T_ref, g)
+    # ---------------- A6 typing of the temperatures
+    _a6(ctx, obj, cls, mech, edges, T if ctor == 'from_data' else None)
+    return obj
+
+
+def _a6(ctx, obj, cls, mech, edges, T_fit):
+    """the getters of the fitted object give, element by element, the float-scalar values when the
+    temperatures come as Python / numpy ints or in float / int containers; for from_data also on the
+    very array the fit was made from"""
+    import numpy as np
+    a, b = int(math.ceil(edges[0])), int(math.floor(edges[-1]))
+    n = min(9, b - a + 1)
+    if n < 2:
+        return
+    step = (b - a) // (n - 1)
+    ints = [a + k * step for k in range(n)]
+    ints += [int(e) for e in edges[1:-1] if e == math.floor(e) and int(e) not in ints]
+    rng_ = range(a, a + step * (n - 1) + 1, step)
+    conts = {'float_ndarray': lambda: np.array(ints, dtype=float),
+             'int_ndarray': lambda: np.array(ints, dtype=np.int64),
+             'int_list': lambda: [int(t) for t in ints], 'float_list': lambda: [float(t) for t in ints],
+             'int_tuple': lambda: tuple(int(t) for t in ints), 'range': lambda: rng_}
+    for name in ('CpoR', 'HoRT', 'SoR'):
+        getter = getattr(obj, 'get_' + name)
+        m = {'class': cls, 'ctor': mech.get('ctor'), 'q': name}     # typing does not depend on the rest
+        try:
+            ref = {t: _f(getter(T=float(t))) for t in set(ints) | set(rng_)}
+        except Exception:
+            return                           # float scalars are judged by A1-A5
+        for ttype, conv in (('int', int), ('np.int64', np.int64)):
+            ctx.cls('%s:eval:%s' % (cls, ttype))
+            got = []
+            for t in ints:
+                v = ctx.call('A6', dict(m, ttype=ttype), getter, T=conv(t))
+                if v is core.NOVALUE:
+                    break
+                got.append(_f(v))
+            else:
+                ctx.close('A6', got, [ref[t] for t in ints], 1e-12, dict(m, ttype=ttype), T=ints)
+        for ttype, mk in conts.items():
+            ctx.cls('%s:eval:%s' % (cls, ttype))
+            c = mk()
+            v = ctx.call('A6', dict(m, ttype=ttype), getter, T=c)
+            if v is core.NOVALUE:
+                continue
+            want = [ref[t] for t in (rng_ if ttype == 'range' else ints)]
+            try:
+                arr = np.asarray(v, dtype=float)
+            except Exception:
+                arr = np.zeros(0)
+            if not ctx.check('A6', arr.shape == (len(want),), dict(m, ttype=ttype, what='shape'),
+                             shape=list(arr.shape), n=len(want)):
+                continue
+            ctx.close('A6', arr, want, 1e-12, dict(m, ttype=ttype), T=list(c))
+        # telemetry only: 32-bit integer arrays overflow in T**3, T**4 (not asserted)
+        try:
+            v32 = np.asarray(getter(T=np.array(ints, dtype=np.int32)), dtype=float)
+            bad = v32.shape != (len(ints),) or ctx.err(v32, [ref[t] for t in ints]) > 1e-9
+        except Exception:
+            bad = True
+        if bad:
+            k = 'int32_ndarray_mismatch:%s' % cls
+            ctx.extra[k] = ctx.extra.get(k, 0) + 1
+        # the array the fit was made from (any order, int or float dtype)
+        if T_fit is not None and (np.issubdtype(T_fit.dtype, np.integer) or len(T_fit) <= 60):
+            ttype = 'fit_grid_int' if np.issubdtype(T_fit.dtype, np.integer) else 'fit_grid_float'
+            v = ctx.call('A6', dict(m, ttype=ttype), getter, T=T_fit)
+            if v is not core.NOVALUE:
+                try:
+                    arr = np.asarray(v, dtype=float)
+                except Exception:
+                    arr = np.zeros(0)
+                if ctx.check('A6', arr.shape == (len(T_fit),), dict(m, ttype=ttype, what='shape'),
+                             shape=list(arr.shape), n=len(T_fit)):
+                    try:
+                        want = [_f(getter(T=float(t))) for t in T_fit]
+                    except Exception:
+                        want = None
+                    if want is not None:
+                        ctx.close('A6', arr, want, 1e-12, dict(m, ttype=ttype))
 
 
 def _a5(ctx, spec, obj, src, cls, mech, T, Cp, edges, T_ref, g):
